@@ -4,6 +4,7 @@
 (* observation of the real library (harness/props/c01.py etc.); TLC judges *)
 (* it against N2KCodec and writes the failing clauses.                     *)
 (*   IOEnv.MODE selects the predicate; verdicts are total (no abort).      *)
+(*   Modes: C01 C02 C08 C09 C11 (identity) C15 C17 C18.                    *)
 (***************************************************************************)
 EXTENDS N2KCodec
 
@@ -188,8 +189,39 @@ C15Verdict(rec) ==
        ELSE IF \E k \in 1..Len(want) : rec.lines[k] # want[k].json THEN Fail(0, "dump.line-differs-from-json")
        ELSE Ok
 
+\* ---- C11 (identity) ------------------------------------------------------
+\* rec: a C01 record of an ISO address claim (pgn, p, ret, hdr, f) plus ids: the identities the decoder attached
+\*      to the claim message itself and to later messages of the claiming source,
+\*      identity = [some, unique, inst (numbers), mfr, func, cls (observed values [k, s, ...]), name (8 bytes)]
+\* The device identity is a function of the claim's decoded fields (which C01Verdict ties to the payload bits):
+\*   unique number = field uniqueNumber (0 if absent); manufacturer / function / class = the texts of
+\*   manufacturerCode / deviceFunction / deviceClass (none for codes the tables do not know);
+\*   instance = 8 * deviceInstanceUpper + deviceInstanceLower; NAME = the 64 payload bits.
+FieldById(rec, id) == rec.f[CHOOSE k \in 1..Len(rec.f) : rec.f[k].id = id]
+HasField(rec, id) == \E k \in 1..Len(rec.f) : rec.f[k].id = id
+NatOr0(ov) == IF ov.k = "num" /\ ~ov.neg /\ Fits30(ov.mag) THEN ToNat(ov.mag) ELSE 0
+TextSame(ov, iv) == IF ov.k = "str" THEN iv.k = "str" /\ iv.s = ov.s ELSE iv.k = "none"
+IdentFieldIds == {"uniqueNumber", "manufacturerCode", "deviceInstanceLower", "deviceInstanceUpper", "deviceFunction", "deviceClass"}
+IdentClause(rec, id) ==
+  IF ~id.some THEN "identity.missing"
+  ELSE IF id.unique # NatOr0(FieldById(rec, "uniqueNumber").v) THEN "identity.unique-number"
+  ELSE IF ~TextSame(FieldById(rec, "manufacturerCode").v, id.mfr) THEN "identity.manufacturer"
+  ELSE IF id.inst # 8 * NatOr0(FieldById(rec, "deviceInstanceUpper").v) + NatOr0(FieldById(rec, "deviceInstanceLower").v)
+       THEN "identity.instance"
+  ELSE IF ~TextSame(FieldById(rec, "deviceFunction").v, id.func) THEN "identity.function"
+  ELSE IF ~TextSame(FieldById(rec, "deviceClass").v, id.cls) THEN "identity.class"
+  ELSE IF id.name # rec.p THEN "identity.name"
+  ELSE "ok"
+C11Verdict(rec) ==
+  IF rec.ret # "msg" THEN Fail(0, "identity.claim-not-decoded")
+  ELSE IF C01Verdict(rec) # Ok THEN C01Verdict(rec)
+  ELSE IF \E i \in IdentFieldIds : ~HasField(rec, i) THEN Fail(0, "identity.claim-field-missing")
+  ELSE LET idx == SelectSeq([k \in 1..Len(rec.ids) |-> k], LAMBDA k : IdentClause(rec, rec.ids[k]) # "ok")
+       IN [j \in 1..Len(idx) |-> [f |-> idx[j], c |-> IdentClause(rec, rec.ids[idx[j]])]]
+
 Verdict(rec) ==
   CASE IOEnv.MODE = "C01" -> C01Verdict(rec)
+    [] IOEnv.MODE = "C11" -> C11Verdict(rec)
     [] IOEnv.MODE = "C08" -> C08Verdict(rec)
     [] IOEnv.MODE = "C02" -> C02Verdict(rec)
     [] IOEnv.MODE = "C09" -> C09Verdict(rec)
